@@ -1287,10 +1287,19 @@ func c03d(c *Ctx, r *Report) {
 						initOK = true
 					}
 					if e.Kind == "call" && strings.HasSuffix(e.Term.Name, "LALR.Traverse") {
-						// guarded by N[x] == 0
-						for _, cd := range p.Conds {
-							if cd.Pol && strings.HasSuffix(normCond(cd), "]") && strings.HasPrefix(normCond(cd), "0 == ") {
-								callOK = true
+						// guarded by exactly N[x] == 0 (written as `if N[x] == 0 {…}` or as `if N[x] != 0 { continue }`)
+						if len(p.Conds) == 1 {
+							cd := p.Conds[0]
+							a := cd.Atom
+							if a.Op == "cmp" && len(a.Args) == 2 && (a.Name == "==" || a.Name == "!=") {
+								isEq := (a.Name == "==") == cd.Pol
+								l, rr := a.Args[0], a.Args[1]
+								if l.Op == "const" {
+									l, rr = rr, l
+								}
+								if isEq && l.Op == "index" && rr.Op == "const" && rr.Val.ExactString() == "0" {
+									callOK = true
+								}
 							}
 						}
 					}
@@ -1402,6 +1411,23 @@ func c03Union(c *Ctx, r *Report, u *FuncRef) {
 						})
 					}
 				case *ast.IfStmt:
+					// membership through a helper: if !contains(base, v) { result = append(result, v) }
+					if un, ok := unparen(x.Cond).(*ast.UnaryExpr); ok && un.Op == token.NOT {
+						if call, ok := unparen(un.X).(*ast.CallExpr); ok && len(call.Args) == 2 {
+							in := identObj(info, call.Args[0])
+							if (in == base || in == res) && identObj(info, call.Args[1]) == v && isMembershipHelper(c, c.FuncOf(callee(info, call))) {
+								resetOK, innerOK = true, true
+								for _, bs := range x.Body.List {
+									if as, ok := bs.(*ast.AssignStmt); ok && len(as.Lhs) == 1 && identObj(info, as.Lhs[0]) == res {
+										if ac, ok := as.Rhs[0].(*ast.CallExpr); ok && builtinName(info, ac) == "append" && len(ac.Args) == 2 &&
+											identObj(info, ac.Args[0]) == res && identObj(info, ac.Args[1]) == v {
+											appendOK = true
+										}
+									}
+								}
+							}
+						}
+					}
 					if un, ok := unparen(x.Cond).(*ast.UnaryExpr); ok && un.Op == token.NOT && identObj(info, un.X) == flag && flag != nil {
 						for _, bs := range x.Body.List {
 							if as, ok := bs.(*ast.AssignStmt); ok && len(as.Lhs) == 1 && identObj(info, as.Lhs[0]) == res {
@@ -1774,7 +1800,6 @@ func checkFixpoint(c *Ctx, fn *FuncRef, spec fixpointSpec) string {
 	// accumulator
 	var acc types.Object
 	var syms *ast.RangeStmt
-	var markIf *ast.IfStmt
 	for _, s := range rules.Body.List {
 		switch x := s.(type) {
 		case *ast.AssignStmt:
@@ -1785,8 +1810,6 @@ func checkFixpoint(c *Ctx, fn *FuncRef, spec fixpointSpec) string {
 			}
 		case *ast.RangeStmt:
 			syms = x
-		case *ast.IfStmt:
-			markIf = x
 		}
 	}
 	if acc == nil {
@@ -1834,13 +1857,10 @@ func checkFixpoint(c *Ctx, fn *FuncRef, spec fixpointSpec) string {
 	}
 	// marking: `LeftPart.mark = true` guarded (through any nesting of ifs / a conjunction) by the accumulator and by
 	// `!LeftPart.mark`, with the change counter incremented in the same block
-	if markIf == nil {
-		return "the mark is not guarded by the accumulator"
-	}
 	pm := parentMap(rules.Body)
 	var markStmt *ast.AssignStmt
-	ast.Inspect(markIf, func(n ast.Node) bool {
-		if x, ok := n.(*ast.AssignStmt); ok {
+	ast.Inspect(rules.Body, func(n ast.Node) bool {
+		if x, ok := n.(*ast.AssignStmt); ok && x.Pos() > syms.End() {
 			for i, l := range x.Lhs {
 				if fv := fieldVar(info, l); fv != nil && fv.Name() == spec.mark && strings.Contains(exprString(l), "LeftPart") {
 					if cv := constOf(info, x.Rhs[i]); cv != nil && cv.Kind() == constant.Bool && constant.BoolVal(cv) {
@@ -1852,21 +1872,47 @@ func checkFixpoint(c *Ctx, fn *FuncRef, spec fixpointSpec) string {
 		return true
 	})
 	if markStmt == nil {
-		return "the left-hand side's " + spec.mark + " is not set to true"
+		return "the left-hand side's " + spec.mark + " is not set to true after the right-hand side was examined"
+	}
+	isMarkRead := func(e ast.Expr) bool {
+		fv := fieldVar(info, unparen(e))
+		return fv != nil && fv.Name() == spec.mark && strings.Contains(exprString(e), "LeftPart")
 	}
 	byAcc, byUnmarked := false, false
 	var cur ast.Node = markStmt
 	for cur != nil && cur != ast.Node(rules.Body) {
 		par := pm[cur]
-		if is, ok := par.(*ast.IfStmt); ok && cur == ast.Node(is.Body) {
-			for _, e := range flattenAnd(is.Cond) {
-				if identObj(info, e) == acc {
-					byAcc = true
-				}
-				if un, ok := unparen(e).(*ast.UnaryExpr); ok && un.Op == token.NOT {
-					if fv := fieldVar(info, unparen(un.X)); fv != nil && fv.Name() == spec.mark && strings.Contains(exprString(un.X), "LeftPart") {
+		switch p := par.(type) {
+		case *ast.IfStmt:
+			if cur == ast.Node(p.Body) {
+				for _, e := range flattenAnd(p.Cond) {
+					if identObj(info, e) == acc {
+						byAcc = true
+					}
+					if un, ok := unparen(e).(*ast.UnaryExpr); ok && un.Op == token.NOT && isMarkRead(un.X) {
 						byUnmarked = true
 					}
+				}
+			}
+		case *ast.BlockStmt:
+			// guard-clause form: `if !acc { continue }` / `if LeftPart.mark { continue }` before the mark
+			for _, st := range p.List {
+				if ast.Node(st) == cur {
+					break
+				}
+				is, ok := st.(*ast.IfStmt)
+				if !ok || is.Else != nil || is.Init != nil || len(is.Body.List) != 1 {
+					continue
+				}
+				if br, ok := is.Body.List[0].(*ast.BranchStmt); !ok || br.Tok != token.CONTINUE || br.Label != nil {
+					continue
+				}
+				cnd := unparen(is.Cond)
+				if un, ok := cnd.(*ast.UnaryExpr); ok && un.Op == token.NOT && identObj(info, unparen(un.X)) == acc {
+					byAcc = true
+				}
+				if isMarkRead(cnd) {
+					byUnmarked = true
 				}
 			}
 		}
@@ -2009,6 +2055,91 @@ func c03f(c *Ctx, r *Report) {
 	}
 	r.Check(bad == "", clause, "R4 DECISION-TABLE", f.Name+"/warning-iff-unresolved", c.pos(fold.Pos()),
 		"inside `len(actions) > 1`: the `warning:` line and the default resolution happen exactly when ResolveConflict reports it cannot decide (a precedence is missing, C04.a)", bad)
+}
+
+// isMembershipHelper: func(set []T, v T) bool that answers "v occurs in set": one loop over set comparing each element
+// with v; a hit sets the flag that is returned (or returns true at once); no hit gives false.
+func isMembershipHelper(c *Ctx, ref *FuncRef) bool {
+	if ref == nil {
+		return false
+	}
+	info := ref.Pkg.TypesInfo
+	ps := paramObjs(info, ref.Decl)
+	if len(ps) != 2 || ref.Decl.Type.Results == nil || len(ref.Decl.Type.Results.List) != 1 {
+		return false
+	}
+	pe := newPathEnum(info)
+	var loop *ast.RangeStmt
+	for _, st := range ref.Decl.Body.List {
+		if rs, ok := st.(*ast.RangeStmt); ok && identObj(info, rs.X) == ps[0] {
+			loop = rs
+		}
+	}
+	if loop == nil || loop.Value == nil {
+		return false
+	}
+	elem := identObj(info, loop.Value)
+	paths, err := pe.Enumerate(loop.Body.List)
+	if err != nil {
+		return false
+	}
+	var flag types.Object
+	hitOK, missOK := false, true
+	for _, p := range paths {
+		eq, decided := false, false
+		for _, cd := range p.Conds {
+			if cd.Atom.Op == "cmp" && (cd.Atom.Name == "==" || cd.Atom.Name == "!=") && len(cd.Atom.Args) == 2 {
+				a, b := cd.Atom.Args[0].String(), cd.Atom.Args[1].String()
+				if (a == elem.Name() && b == ps[1].Name()) || (b == elem.Name() && a == ps[1].Name()) {
+					decided = true
+					eq = (cd.Atom.Name == "==") == cd.Pol
+				}
+			}
+		}
+		if !decided {
+			return false
+		}
+		setTrue, retTrue := false, false
+		for o, t := range p.Env {
+			if t != nil && t.Op == "const" && t.Val.Kind() == constant.Bool && constant.BoolVal(t.Val) {
+				if _, isVar := o.(*types.Var); isVar && o != elem {
+					setTrue, flag = true, o
+				}
+			}
+		}
+		if p.Kind == "return" && len(p.Vals) == 1 && p.Vals[0].Op == "const" && p.Vals[0].Val.Kind() == constant.Bool && constant.BoolVal(p.Vals[0].Val) {
+			retTrue = true
+		}
+		if eq {
+			hitOK = setTrue || retTrue
+		} else if setTrue || retTrue || p.Kind == "return" {
+			missOK = false
+		}
+	}
+	if !hitOK || !missOK {
+		return false
+	}
+	// the final result: the flag (initialised false) or the constant false
+	last, ok := ref.Decl.Body.List[len(ref.Decl.Body.List)-1].(*ast.ReturnStmt)
+	if !ok || len(last.Results) != 1 {
+		return false
+	}
+	if cv := constOf(info, last.Results[0]); cv != nil {
+		return cv.Kind() == constant.Bool && !constant.BoolVal(cv) && flag == nil
+	}
+	if flag == nil || identObj(info, last.Results[0]) != flag {
+		return false
+	}
+	// flag starts false
+	init := false
+	for _, st := range ref.Decl.Body.List {
+		if as, ok := st.(*ast.AssignStmt); ok && len(as.Lhs) == 1 && identObj(info, as.Lhs[0]) == flag && st.Pos() < loop.Pos() {
+			if cv := constOf(info, as.Rhs[0]); cv != nil && cv.Kind() == constant.Bool && !constant.BoolVal(cv) {
+				init = true
+			}
+		}
+	}
+	return init
 }
 
 // findFoldLoop returns the innermost for-loop of fd whose body calls (*LALR1).ResolveConflict, and that call.
@@ -2220,12 +2351,19 @@ func c03EndMarker(c *Ctx, r *Report, clause string) {
 			if !isC || builtinName(info, call) != "append" {
 				return true
 			}
-			ast.Inspect(call, func(m ast.Node) bool {
-				if bl, isB := m.(*ast.BasicLit); isB && bl.Value == "1" {
-					ok = true
-				}
-				return true
-			})
+			// some appended element (or element of an appended literal) has the constant value 1, by value
+			for _, a := range call.Args[1:] {
+				ast.Inspect(a, func(m ast.Node) bool {
+					if e, isE := m.(ast.Expr); isE {
+						if _, isLit := e.(*ast.CompositeLit); !isLit {
+							if v, isC := constInt(info, e); isC && v == 1 {
+								ok = true
+							}
+						}
+					}
+					return true
+				})
+			}
 			return true
 		})
 		r.Check(ok, clause, "R1 PROVENANCE", f.Name+"/end-marker-seed", c.pos(f.Decl.Pos()),
@@ -2235,26 +2373,26 @@ func c03EndMarker(c *Ctx, r *Report, clause string) {
 	if f := c.need(r, clause, "LALR", "LALR1", "CalcLookAheadSet"); f != nil {
 		info := f.Pkg.TypesInfo
 		ok := false
+		// the store LookAheadSet[…] = {1} and its guard: exactly `rule number == 0` (if or switch form)
 		ast.Inspect(f.Decl.Body, func(n ast.Node) bool {
-			is, isI := n.(*ast.IfStmt)
-			if !isI {
+			as, isA := n.(*ast.AssignStmt)
+			if !isA || len(as.Lhs) != 1 || len(as.Rhs) != 1 {
 				return true
 			}
-			be, isB := unparen(is.Cond).(*ast.BinaryExpr)
-			if !isB || be.Op != token.EQL {
+			ix, isI := unparen(as.Lhs[0]).(*ast.IndexExpr)
+			if !isI || !fieldNamed(info, ix.X, "LookAheadSet") {
 				return true
 			}
-			if v, isC := constInt(info, be.Y); !isC || v != 0 || !strings.Contains(exprString(be.X), "sym_or_rule") {
+			cl, isCl := unparen(as.Rhs[0]).(*ast.CompositeLit)
+			if !isCl || len(cl.Elts) != 1 {
 				return true
 			}
-			for _, s := range is.Body.List {
-				if as, isA := s.(*ast.AssignStmt); isA && len(as.Rhs) == 1 {
-					if cl, isCl := as.Rhs[0].(*ast.CompositeLit); isCl && len(cl.Elts) == 1 {
-						if v, isC := constInt(info, cl.Elts[0]); isC && v == 1 {
-							ok = true
-						}
-					}
-				}
+			if v, isC := constInt(info, cl.Elts[0]); !isC || v != 1 {
+				return true
+			}
+			atoms := guardAtoms(c, f, as)
+			if len(atoms) == 1 && !strings.HasPrefix(atoms[0], "!") && strings.Contains(atoms[0], "sym_or_rule") && strings.Contains(atoms[0], "&") && strings.HasSuffix(atoms[0], " == 0)") {
+				ok = true
 			}
 			return true
 		})
